@@ -271,6 +271,15 @@ Definition get_rows_per_scan (kw attr : option Z) (nrows : Z) : option Z :=
    chunk_rows = max(floor(auto_rows / rows_per_scan), 1) * rows_per_scan *)
 Definition scan_aligned_rows (auto_rows rps : Z) : Z := Z.max (auto_rows / rps) 1 * rps.
 
+(* `x == y` on Optional values (None equals only None) *)
+Definition opt_eqb {A} (eqb : A -> A -> bool) (a b : option A) : bool :=
+  match a, b with Some x, Some y => eqb x y | None, None => true | _, _ => false end.
+
+(* key of a fornav task in the dask graph: (task name token, z index, output row block, output column block) *)
+Definition tkey := (Z * Z * Z * Z)%type.
+Definition tkey_eqb (a b : tkey) : bool :=
+  let '(a1, a2, a3, a4) := a in let '(b1, b2, b3, b4) := b in (a1 =? b1) && (a2 =? b2) && (a3 =? b3) && (a4 =? b4).
+
 (* ------------------------------------------------------------------ output chunk layout *)
 (* _generate_fornav_dask_tasks: y_start/x_start are running sums of the chunk sizes; blocks in row-major order *)
 Fixpoint chunk_spans (start : Z) (sizes : list Z) : list (Z * Z) :=
